@@ -1,0 +1,7 @@
+//go:build !verif
+
+package cgroup
+
+func verifPoint(string) {}
+
+func verifRandomName() string { return "" }
